@@ -2,185 +2,22 @@ import Enc.Lemmas.JsonCodecChoiceSeen
 /-!
 # `constructCodec` terminates on every type graph (recursive types through `seen`): the fuel `fuelFor` suffices
 
-Potential: the number of keys (defined type, addressability) not in `seen` yet. Unfolding a definition — the only
-step that is not structurally decreasing — happens only after a new key was put into `seen`: the struct key
-(t, canAddr), which stays, or the key (t, false) of a named slice/map/pointer/array, which is deleted on the way out
-but is present for everything below. Between two unfoldings the recursion descends into a definition body.
+Potential, lexicographic:
+1. the keys of `keysOf (univ env t0)` (every struct type and defined type in the text of the program) not in `seen`
+   yet — unfolding a definition or walking the fields of a struct type happens only after a new key was put into `seen`,
+   EXCEPT for the second listing of an embedded struct type that is under construction (`embeddedF`);
+2. while fields are listed on behalf of a root: the entries under construction marked with ANOTHER root — a second
+   listing marks one more of them with the current root for its duration;
+3. the size of the type term being walked.
+A call leaves the entries under construction exactly as it found them, roots included (`Evo`), so (2) is the same after
+a call as before it.
 -/
 set_option linter.unusedSimpArgs false
+set_option linter.unusedVariables false
 namespace Enc.Lemmas.JsonCodecChoiceTerm
 open Enc.Model.Json.CodecChoice Enc.Lemmas.JsonCodecChoiceSeen
 
-def NF (env : Env) (s : Seen) (n : Nat) : Nat := 2 * (unseen env s * (maxDef env + 2) + n)
-
-theorem NF_mono (env : Env) {s s' : Seen} (h : Mono s s') {n n' : Nat} (hn : n' ≤ n) : NF env s' n' ≤ NF env s n := by
-  unfold NF
-  have := unseen_mono env s s' h
-  have := Nat.mul_le_mul_right (maxDef env + 2) this
-  omega
-
-/-- after a new key of a defined type went into `seen`, a whole definition body fits into the budget of the reference -/
-theorem NF_set (env : Env) (s : Seen) (k : Key) (e : Entry) (hk : k ∈ allKeys env) (habs : s.find k = none)
-    (n : Nat) (hn : n ≤ maxDef env) : NF env (s.set k e) n + 4 ≤ NF env s 1 := by
-  unfold NF
-  have h1 := unseen_set_lt env s k e hk habs
-  have : (unseen env (s.set k e) + 1) * (maxDef env + 2) ≤ unseen env s * (maxDef env + 2) :=
-    Nat.mul_le_mul_right _ h1
-  rw [Nat.add_mul] at this
-  omega
-
-def CodecOK (env : Env) (codec : CodecFn) (f : Nat) : Prop :=
-  ∀ t a s, NF env s t.size + 1 ≤ f → ∃ c s', codec t a s = some (c, s') ∧ Mono s s'
-
-def StructOK (env : Env) (strct : StructFn) (f : Nat) : Prop :=
-  ∀ t a s, NF env s t.size ≤ f → ∃ e s', strct t a s = some (e, s') ∧ Mono s s'
-
-theorem integerType_size (u : TD) (h : isIntKind u = true) : (integerType u).size = 1 := by
-  unfold isIntKind at h
-  split at h <;> simp_all [integerType, TD.size]
-
-theorem stringCodec_ok (env : Env) (codec : CodecFn) (f : Nat) (hc : CodecOK env codec f) (k : TD) (s : Seen)
-    (hk : isIntKind (under env k) = true) (h : NF env s k.size + 1 ≤ f) :
-    ∃ c s', stringCodecF codec env k s = some (c, s') ∧ Mono s s' := by
-  unfold stringCodecF
-  have hsz : (if implT env .mj k || implPtr env .uj k then integerType (under env k) else k).size ≤ k.size := by
-    split
-    · rw [integerType_size _ hk]; exact size_pos k
-    · exact Nat.le_refl _
-  obtain ⟨c, s', h1, h2⟩ := hc (if implT env .mj k || implPtr env .uj k then integerType (under env k) else k) false s
-    (by have := NF_mono env (Mono.refl s) hsz; omega)
-  exact ⟨.quoted c, s', by simp only [h1], h2⟩
-
-theorem mapKey_ok (env : Env) (codec : CodecFn) (f : Nat) (hc : CodecOK env codec f) (k : TD) (s : Seen)
-    (h : NF env s k.size + 1 ≤ f) :
-    ∃ r s', mapKeyF codec env k s = some (r, s') ∧ Mono s s' := by
-  have hkind : ∃ kd s', (if isStringKind (under env k) then some (Choice.prim .string, s)
-        else if isIntKind (under env k) then stringCodecF codec env k s else some (Choice.unsupported, s))
-        = some (kd, s') ∧ Mono s s' := by
-    by_cases h1 : isStringKind (under env k) = true
-    · simp only [h1, if_true]; exact ⟨_, _, rfl, Mono.refl s⟩
-    · by_cases h2 : isIntKind (under env k) = true
-      · simp only [h1, h2, if_true, if_false]; exact stringCodec_ok env codec f hc k s h2 h
-      · simp only [h1, h2, if_false]; exact ⟨_, _, rfl, Mono.refl s⟩
-  unfold mapKeyF
-  simp only
-  by_cases h0 : (implT env .mt k || implPtr env .ut k) = true
-  · simp only [h0, if_true]
-    by_cases h1 : (!implT env .mt k || !implPtr env .ut k) = true
-    · simp only [h1, if_true]
-      obtain ⟨kd, s', hk, hm⟩ := hkind
-      simp only [hk]
-      exact ⟨_, _, rfl, hm⟩
-    · simp only [h1, if_false]
-      exact ⟨_, _, rfl, Mono.refl s⟩
-  · simp only [h0, if_false]
-    by_cases h1 : isStringKind (under env k) = true
-    · simp only [h1, if_true]; exact ⟨_, _, rfl, Mono.refl s⟩
-    · by_cases h2 : isIntKind (under env k) = true
-      · simp only [h1, h2, if_true, if_false]
-        obtain ⟨c, s', hk, hm⟩ := stringCodec_ok env codec f hc k s h2 h
-        simp only [hk]
-        exact ⟨_, _, rfl, hm⟩
-      · simp only [h1, h2, if_false]; exact ⟨_, _, rfl, Mono.refl s⟩
-
-theorem stringify_ok (env : Env) (codec : CodecFn) (f : Nat) (hc : CodecOK env codec f) (a : Bool) (ft : TD) (c : Choice)
-    (s : Seen) (h : NF env s ft.size + 1 ≤ f) :
-    ∃ c' s', stringifyF codec env a ft c s = some (c', s') ∧ Mono s s' := by
-  unfold stringifyF
-  extract_lets typ q q'
-  by_cases h0 : (typ != ft) = true
-  · simp only [h0, if_true]
-    obtain ⟨p, s', h1, h2⟩ := hc ft a s h
-    simp only [h1]
-    exact ⟨_, _, rfl, h2⟩
-  · simp only [h0, if_false]
-    exact ⟨_, _, rfl, Mono.refl s⟩
-
-theorem fl_size_field (n : String) (e st : Bool) (t : TD) (r : FL) :
-    (FL.cons n e st t r).size = t.size + r.size + 1 := by simp [FL.size]
-
-theorem peel_size (ft : TD) : (peel ft).size ≤ ft.size := by
-  cases ft <;> simp [peel, TD.size]
-
-theorem fields_ok (env : Env) (codec : CodecFn) (strct : StructFn) (f : Nat) (hc : CodecOK env codec f)
-    (hs : StructOK env strct f) (a : Bool) :
-    ∀ (fs : FL) (s : Seen), NF env s fs.size + 1 ≤ f →
-      ∃ cl s', fieldsF codec strct env a fs s = some (cl, s') ∧ Mono s s'
-  | .nil, s, _ => ⟨.nil, s, by simp [fieldsF], Mono.refl s⟩
-  | .cons name emb str ft rest, s, h => by
-    rw [fl_size_field] at h
-    unfold fieldsF
-    extract_lets isP typ
-    have htyp : typ.size ≤ ft.size := peel_size ft
-    have hrest : ∀ s', Mono s s' → NF env s' rest.size + 1 ≤ f := fun s' hm => by
-      have := NF_mono env hm (show rest.size ≤ ft.size + rest.size + 1 by omega); omega
-    by_cases h0 : (emb && isStructKind (under env typ)) = true
-    · simp only [h0, if_true]
-      obtain ⟨e, s1, h1, m1⟩ := hs typ (a || isP) s (by
-        have := NF_mono env (Mono.refl s) (show typ.size ≤ ft.size + rest.size + 1 by omega); omega)
-      simp only [h1]
-      obtain ⟨r, s2, h2, m2⟩ := fields_ok env codec strct f hc hs a rest s1 (hrest s1 m1)
-      simp only [h2]
-      exact ⟨_, _, rfl, m1.trans m2⟩
-    · simp only [h0, if_false]
-      obtain ⟨c, s1, h1, m1⟩ := hc ft a s (by
-        have := NF_mono env (Mono.refl s) (show ft.size ≤ ft.size + rest.size + 1 by omega); omega)
-      simp only [h1]
-      have hstr : ∃ c' s2, (if str = true then stringifyF codec env a ft c s1 else some (c, s1)) = some (c', s2) ∧ Mono s1 s2 := by
-        by_cases hst : str = true
-        · simp only [hst, if_true]
-          exact stringify_ok env codec f hc a ft c s1 (by
-            have := NF_mono env m1 (show ft.size ≤ ft.size + rest.size + 1 by omega); omega)
-        · simp only [hst, if_false]; exact ⟨_, _, rfl, Mono.refl s1⟩
-      obtain ⟨c', s2, h2, m2⟩ := hstr
-      simp only [h2]
-      obtain ⟨r, s3, h3, m3⟩ := fields_ok env codec strct f hc hs a rest s2 (hrest s2 (m1.trans m2))
-      simp only [h3]
-      exact ⟨_, _, rfl, (m1.trans m2).trans m3⟩
-
-theorem kind_ok (env : Env) (codec : CodecFn) (strct : StructFn) (f : Nat) (hc : CodecOK env codec f)
-    (hs : StructOK env strct f) (t u : TD) (a : Bool) (s : Seen)
-    (hchild : isComposite u = true → ∀ e : TD, e.size < u.size → NF env s e.size + 1 ≤ f)
-    (hstruct : isStructKind u = true → NF env s t.size ≤ f) :
-    ∃ c s', kindF codec strct env t u a s = some (c, s') ∧ Mono s s' := by
-  unfold kindF
-  split
-  · exact ⟨_, _, rfl, Mono.refl s⟩
-  · exact ⟨_, _, rfl, Mono.refl s⟩
-  · exact ⟨_, _, rfl, Mono.refl s⟩
-  · exact ⟨_, _, rfl, Mono.refl s⟩
-  · exact ⟨_, _, rfl, Mono.refl s⟩
-  · -- array
-    rename_i n e
-    obtain ⟨c, s1, h1, m1⟩ := hc e a s (hchild rfl e (by simp [TD.size]))
-    simp only [h1]; exact ⟨_, _, rfl, m1⟩
-  · -- slice
-    rename_i e
-    split
-    · exact ⟨_, _, rfl, Mono.refl s⟩
-    · obtain ⟨c, s1, h1, m1⟩ := hc e true s (hchild rfl e (by simp [TD.size]))
-      simp only [h1]; exact ⟨_, _, rfl, m1⟩
-  · -- map
-    rename_i k v
-    split
-    · exact ⟨_, _, rfl, Mono.refl s⟩
-    · obtain ⟨vc, s1, h1, m1⟩ := hc v false s (hchild rfl v (by simp [TD.size]; omega))
-      simp only [h1]
-      obtain ⟨r, s2, h2, m2⟩ := mapKey_ok env codec f hc k s1 (by
-        have := hchild rfl k (by simp [TD.size]; omega)
-        have := NF_mono env m1 (Nat.le_refl k.size); omega)
-      simp only [h2]
-      cases r with
-      | none => exact ⟨_, _, rfl, m1.trans m2⟩
-      | some kc => exact ⟨_, _, rfl, m1.trans m2⟩
-  · -- struct
-    obtain ⟨e, s1, h1, m1⟩ := hs t a s (hstruct (by simp [isStructKind]))
-    simp only [h1]; exact ⟨_, _, rfl, m1⟩
-  · -- ptr
-    rename_i e
-    obtain ⟨c, s1, h1, m1⟩ := hc e true s (hchild rfl e (by simp [TD.size]))
-    simp only [h1]; exact ⟨_, _, rfl, m1⟩
-  · exact ⟨_, _, rfl, Mono.refl s⟩
+/-! ## reflect facts -/
 
 theorem under_cases (env : Env) (t : TD) : under env t = t ∨ ∃ id, t = .ref id := by
   cases t <;> simp [under]
@@ -197,117 +34,548 @@ theorem under_ref (env : Env) (id : Nat) (h : under env (.ref id) ≠ .prim .com
     simp only [hl] at h ⊢
     cases hu : d.under <;> simp only [hu] at h hsz ⊢ <;> first | exact hsz | exact absurd rfl h
 
-theorem NF_pos (env : Env) (s : Seen) (t : TD) : 2 ≤ NF env s t.size := by
-  unfold NF; have := size_pos t; omega
+theorem under_ref_ne (env : Env) (id id' : Nat) : under env (.ref id) ≠ .ref id' := by
+  unfold under
+  cases hl : env.lookup id with
+  | none => simp [hl]
+  | some d => cases hd : d.under <;> simp [hl, hd]
 
-theorem main (env : Env) : ∀ f, CodecOK env (codecF f env) f ∧ StructOK env (structF f env) f
-  | 0 => ⟨fun t a s h => by omega, fun t a s h => by have := NF_pos env s t; omega⟩
+theorem under_ref_not_special (env : Env) (id : Nat) (sp : Special) : under env (.ref id) ≠ .special sp := by
+  unfold under
+  cases hl : env.lookup id with
+  | none => simp [hl]
+  | some d => cases hd : d.under <;> simp [hl, hd]
+
+/-- the types of an integer kind: time.Duration, the unnamed integer types, defined types with an integer underlying type -/
+theorem under_int_cases (env : Env) (k : TD) (hi : isIntKind (under env k) = true) :
+    (k = .special .duration) ∨ (∃ p, under env k = .prim p ∧ p ≠ .chan ∧ p ≠ .complex ∧ firstSwitch k = none) := by
+  cases k with
+  | special s => cases s <;> simp [under, isIntKind] at hi; left; rfl
+  | prim p => right; refine ⟨p, by simp [under], ?_, ?_, by simp [firstSwitch]⟩ <;> (intro h; subst h; simp [under, isIntKind] at hi)
+  | ref id =>
+    right
+    cases hu : under env (.ref id) <;> simp [hu, isIntKind] at hi
+    · rename_i p
+      refine ⟨p, rfl, ?_, ?_, by simp [firstSwitch]⟩ <;> (intro h; subst h; simp at hi)
+    · exact absurd hu (under_ref_not_special env id _)
+  | _ => simp [under, isIntKind] at hi
+
+/-! ## the universe of type terms -/
+
+theorem subs_self (t : TD) : t ∈ subs t := by cases t <;> simp [subs]
+
+mutual
+theorem subs_trans : ∀ (y x z : TD), x ∈ subs y → z ∈ subs x → z ∈ subs y
+  | .slice e, x, z, hx, hz => by
+    simp only [subs, List.mem_cons] at hx ⊢
+    rcases hx with rfl | hx
+    · simpa [subs] using hz
+    · exact .inr (subs_trans e x z hx hz)
+  | .array n e, x, z, hx, hz => by
+    simp only [subs, List.mem_cons] at hx ⊢
+    rcases hx with rfl | hx
+    · simpa [subs] using hz
+    · exact .inr (subs_trans e x z hx hz)
+  | .ptr e, x, z, hx, hz => by
+    simp only [subs, List.mem_cons] at hx ⊢
+    rcases hx with rfl | hx
+    · simpa [subs] using hz
+    · exact .inr (subs_trans e x z hx hz)
+  | .map k v, x, z, hx, hz => by
+    simp only [subs, List.mem_cons, List.mem_append] at hx ⊢
+    rcases hx with rfl | hx | hx
+    · simpa [subs] using hz
+    · exact .inr (.inl (subs_trans k x z hx hz))
+    · exact .inr (.inr (subs_trans v x z hx hz))
+  | .struct fs, x, z, hx, hz => by
+    simp only [subs, List.mem_cons] at hx ⊢
+    rcases hx with rfl | hx
+    · simpa [subs] using hz
+    · exact .inr (subsF_trans fs x z hx hz)
+  | .nil, x, z, hx, hz => by simp only [subs, List.mem_singleton] at hx; subst hx; exact hz
+  | .prim _, x, z, hx, hz => by simp only [subs, List.mem_singleton] at hx; subst hx; exact hz
+  | .special _, x, z, hx, hz => by simp only [subs, List.mem_singleton] at hx; subst hx; exact hz
+  | .any _, x, z, hx, hz => by simp only [subs, List.mem_singleton] at hx; subst hx; exact hz
+  | .iface _ _ _, x, z, hx, hz => by simp only [subs, List.mem_singleton] at hx; subst hx; exact hz
+  | .ref _, x, z, hx, hz => by simp only [subs, List.mem_singleton] at hx; subst hx; exact hz
+theorem subsF_trans : ∀ (fs : FL) (x z : TD), x ∈ subsF fs → z ∈ subs x → z ∈ subsF fs
+  | .nil, x, z, hx, _ => by simp [subsF] at hx
+  | .cons _ _ _ t r, x, z, hx, hz => by
+    simp only [subsF, List.mem_append] at hx ⊢
+    rcases hx with hx | hx
+    · exact .inl (subs_trans t x z hx hz)
+    · exact .inr (subsF_trans r x z hx hz)
+end
+
+theorem univ_closed (env : Env) (t0 x z : TD) (hx : x ∈ univ env t0) (hz : z ∈ subs x) : z ∈ univ env t0 := by
+  simp only [univ, List.mem_append, List.mem_flatMap] at hx ⊢
+  rcases hx with hx | ⟨p, hp, hx⟩
+  · exact .inl (subs_trans t0 x z hx hz)
+  · exact .inr ⟨p, hp, subs_trans _ x z hx hz⟩
+
+theorem lookup_mem (env : Env) (id : Nat) (d : Def) (h : env.lookup id = some d) : (id, d) ∈ env := by
+  induction env with
+  | nil => simp at h
+  | cons p r ih =>
+    obtain ⟨i, d'⟩ := p
+    simp only [List.lookup] at h
+    by_cases hi : id = i
+    · subst hi; simp at h; subst h; simp
+    · have : (id == i) = false := by simpa using hi
+      simp only [this] at h
+      exact List.mem_cons_of_mem _ (ih h)
+
+/-- the structure behind a type of the universe is in the universe -/
+theorem under_univ (env : Env) (t0 x : TD) (hx : x ∈ univ env t0) :
+    under env x ∈ univ env t0 ∨ under env x = .prim .complex := by
+  rcases under_cases env x with h | ⟨id, rfl⟩
+  · rw [h]; exact .inl hx
+  · cases hl : env.lookup id with
+    | none => right; simp [under, hl]
+    | some d =>
+      have hmem := lookup_mem env id d hl
+      have hin : d.under ∈ univ env t0 := by
+        simp only [univ, List.mem_append, List.mem_flatMap]
+        exact .inr ⟨(id, d), hmem, subs_self _⟩
+      cases hd : d.under <;>
+        first
+        | (right; simp [under, hl, hd]; done)
+        | (left
+           have hu : under env (.ref id) = d.under := by simp [under, hl, hd]
+           rw [hu]; exact hin)
+
+theorem size_le_maxSize (l : List TD) (x : TD) (h : x ∈ l) : x.size ≤ maxSize l := by
+  induction l with
+  | nil => cases h
+  | cons y r ih =>
+    simp only [maxSize]
+    rcases List.mem_cons.mp h with rfl | h'
+    · omega
+    · have := ih h'; omega
+
+theorem key_mem (l : List TD) (x : TD) (b : Bool) (h : x ∈ l) : (x, b) ∈ keysOf l := by
+  simp only [keysOf, List.mem_flatMap]
+  exact ⟨x, h, by cases b <;> simp⟩
+
+theorem peel_subs (ft : TD) : peel ft ∈ subs ft := by
+  cases ft <;> simp [peel, subs, subs_self]
+
+theorem peel_size (ft : TD) : (peel ft).size ≤ ft.size := by
+  cases ft <;> simp [peel, TD.size]
+
+/-! ## the budget -/
+
+section budget
+variable (U : List Key) (M : Nat)
+
+def P (s : Seen) (R : Key) : Nat := absent U s * (U.length + 1) + foreign U s R
+
+/-- what listing fields on behalf of the root `R` may use -/
+def NF (s : Seen) (R : Key) (n : Nat) : Nat := 2 * (P U s R * (M + 2) + n)
+
+/-- what a call of `constructCodec` may use: the next struct type it enters is a new key -/
+def NFc (s : Seen) (n : Nat) : Nat := 2 * (absent U s * (U.length + 1) * (M + 2) + n)
+
+theorem NFc_le_NF (s : Seen) (R : Key) (n : Nat) : NFc U M s n ≤ NF U M s R n := by
+  unfold NFc NF P
+  have : absent U s * (U.length + 1) * (M + 2) ≤ (absent U s * (U.length + 1) + foreign U s R) * (M + 2) :=
+    Nat.mul_le_mul_right _ (Nat.le_add_right _ _)
+  omega
+
+theorem NF_evo {s s' : Seen} (h : Evo s s') (R : Key) {n n' : Nat} (hn : n' ≤ n) : NF U M s' R n' ≤ NF U M s R n := by
+  unfold NF P
+  rw [foreign_evo U s s' R h]
+  have h1 := absent_evo U s s' h
+  have h2 := Nat.mul_le_mul_right (U.length + 1) h1
+  have h3 : absent U s' * (U.length + 1) + foreign U s R ≤ absent U s * (U.length + 1) + foreign U s R := by omega
+  have := Nat.mul_le_mul_right (M + 2) h3
+  omega
+
+theorem NFc_evo {s s' : Seen} (h : Evo s s') {n n' : Nat} (hn : n' ≤ n) : NFc U M s' n' ≤ NFc U M s n := by
+  unfold NFc
+  have h1 := absent_evo U s s' h
+  have h2 := Nat.mul_le_mul_right (U.length + 1) h1
+  have := Nat.mul_le_mul_right (M + 2) h2
+  omega
+
+/-- a new key pays for a whole body, whatever the root -/
+theorem NF_newkey (s : Seen) (k : Key) (e : Entry) (hk : k ∈ U) (habs : s.find k = none) (R : Key) (n : Nat)
+    (hn : n ≤ M) : NF U M (s.set k e) R n + 4 ≤ NFc U M s 1 := by
+  unfold NF NFc P
+  have h1 := absent_set_lt U s k e hk habs
+  have h2 := foreign_le U (s.set k e) R
+  have h3 : absent U (s.set k e) * (U.length + 1) + foreign U (s.set k e) R + 1 ≤ absent U s * (U.length + 1) := by
+    have : (absent U (s.set k e) + 1) * (U.length + 1) ≤ absent U s * (U.length + 1) := Nat.mul_le_mul_right _ h1
+    rw [Nat.add_mul] at this
+    omega
+  have := Nat.mul_le_mul_right (M + 2) h3
+  rw [Nat.add_mul] at this
+  omega
+
+/-- the second listing: one more entry marked with the current root pays for a whole body -/
+theorem NF_mark (s : Seen) (k r R : Key) (hk : k ∈ U) (hf : s.find k = some (.building r)) (hne : (r == R) = false)
+    (n : Nat) (hn : n ≤ M) : NF U M (s.set k (.building R)) R n + 4 ≤ NF U M s R 1 := by
+  unfold NF P
+  have h1 := foreign_mark_lt U s k r R hk hf hne
+  have h2 := absent_set_le U s k (.building R)
+  have h2' := Nat.mul_le_mul_right (U.length + 1) h2
+  have h3 : absent U (s.set k (.building R)) * (U.length + 1) + foreign U (s.set k (.building R)) R + 1 ≤
+      absent U s * (U.length + 1) + foreign U s R := by omega
+  have := Nat.mul_le_mul_right (M + 2) h3
+  rw [Nat.add_mul] at this
+  omega
+
+theorem NFc_pos (s : Seen) (t : TD) : 2 ≤ NFc U M s t.size := by
+  unfold NFc; have := size_pos t; omega
+
+end budget
+
+/-! ## the induction -/
+
+section main
+variable (env : Env) (t0 : TD)
+
+/-- the keys and the size bound of the construction of `t0` -/
+abbrev UU : List Key := keysOf (univ env t0)
+abbrev MM : Nat := maxSize (univ env t0)
+
+def InU (x : TD) : Prop := x ∈ univ env t0
+
+/-- the field list is part of the program text -/
+def FLin (fl : FL) : Prop := ∀ x, x ∈ subsF fl → x ∈ univ env t0
+
+def CodecOK (codec : CodecFn) (f : Nat) : Prop :=
+  ∀ t a s, InU env t0 t → NFc (UU env t0) (MM env t0) s t.size + 1 ≤ f → ∃ c s', codec t a s = some (c, s') ∧ Evo s s'
+
+def StructOK (strct : StructFn) (f : Nat) : Prop :=
+  ∀ t a root s, InU env t0 t → NFc (UU env t0) (MM env t0) s t.size ≤ f →
+    ∃ e s', strct t a root s = some (e, s') ∧ Evo s s' ∧
+      (∀ r, e = .building r → s' = s ∧ s.find (t, a) = some (.building r))
+
+def ListOK (list : ListFn) (f : Nat) : Prop :=
+  ∀ t a R s, InU env t0 t → NF (UU env t0) (MM env t0) s R (fieldsOf env t).size + 2 ≤ f →
+    ∃ fs s', list t a R s = some (fs, s') ∧ Evo s s'
+
+theorem fieldsOf_in (t : TD) (h : InU env t0 t) :
+    FLin env t0 (fieldsOf env t) ∧ (fieldsOf env t).size + 1 ≤ MM env t0 := by
+  have hpos : 1 ≤ MM env t0 := by
+    show 1 ≤ maxSize (univ env t0)
+    have := size_le_maxSize _ _ h; have := size_pos t; omega
+  have hnil : FLin env t0 .nil ∧ FL.nil.size + 1 ≤ MM env t0 :=
+    ⟨fun x hx => by simp [subsF] at hx, by simp only [FL.size]; omega⟩
+  unfold fieldsOf
+  cases hs : under env t with
+  | struct fs =>
+    simp only
+    have hu : TD.struct fs ∈ univ env t0 := by
+      rcases under_univ env t0 t h with hu | hu
+      · rw [hs] at hu; exact hu
+      · rw [hs] at hu; cases hu
+    refine ⟨fun x hx => univ_closed env t0 _ x hu (by simp [subs, hx]), ?_⟩
+    have := size_le_maxSize _ _ hu
+    simp only [TD.size] at this
+    exact this
+  | _ => exact hnil
+
+theorem integerType_size (u : TD) (h : isIntKind u = true) : (integerType u).size = 1 := by
+  unfold isIntKind at h
+  split at h <;> simp_all [integerType, TD.size]
+
+/-- a type of an integer kind: one call, `seen` untouched -/
+theorem intKind_some (f : Nat) (k : TD) (a : Bool) (s : Seen) (hi : isIntKind (under env k) = true) :
+    ∃ c, codecF (f + 1) env k a s = some (c, s) := by
+  rw [codecF]
+  rcases under_int_cases env k hi with rfl | ⟨p, hu, hc1, hc2, hfs⟩
+  · exact ⟨.special .duration, by simp [firstSwitch]⟩
+  · simp only [hfs, hu]
+    have hn : (isRef k && isComposite (TD.prim p)) = false := by simp [isComposite]
+    simp only [hn, Bool.false_and, Bool.false_eq_true, if_false]
+    have hk : kindF (codecF f env) (structF f env) env k (.prim p) a s = some (.prim p, s) := by
+      unfold kindF
+      cases p <;> simp at hc1 hc2 <;> rfl
+    simp only [hk]
+    exact ⟨_, rfl⟩
+
+theorem integerType_int (u : TD) (h : isIntKind u = true) : isIntKind (integerType u) = true := by
+  unfold isIntKind at h
+  split at h <;> simp_all [integerType, isIntKind]
+
+theorem stringCodec_ok (f : Nat) (k : TD) (s : Seen) (hk : isIntKind (under env k) = true) :
+    ∃ c, stringCodecF (codecF (f + 1) env) env k s = some (c, s) := by
+  unfold stringCodecF
+  have hi : isIntKind (under env (if implT env .mj k || implPtr env .uj k then integerType (under env k) else k)) = true := by
+    split
+    · have := integerType_int _ hk
+      cases hu : integerType (under env k) <;> simp [hu, isIntKind] at this <;> simpa [under, hu, isIntKind] using this
+    · exact hk
+  obtain ⟨c, h1⟩ := intKind_some env f _ false s hi
+  exact ⟨.quoted c, by simp only [h1]⟩
+
+theorem mapKey_ok (f : Nat) (k : TD) (s : Seen) :
+    ∃ r, mapKeyF (codecF (f + 1) env) env k s = some (r, s) := by
+  have hkind : ∃ kd, (if isStringKind (under env k) then some (Choice.prim .string, s)
+        else if isIntKind (under env k) then stringCodecF (codecF (f + 1) env) env k s else some (Choice.unsupported, s))
+        = some (kd, s) := by
+    by_cases h1 : isStringKind (under env k) = true
+    · simp only [h1, if_true]; exact ⟨_, rfl⟩
+    · by_cases h2 : isIntKind (under env k) = true
+      · simp only [h1, h2, if_true, if_false]; exact stringCodec_ok env f k s h2
+      · simp only [h1, h2, if_false]; exact ⟨_, rfl⟩
+  unfold mapKeyF
+  simp only
+  by_cases h0 : (implT env .mt k || implPtr env .ut k) = true
+  · simp only [h0, if_true]
+    by_cases h1 : (!implT env .mt k || !implPtr env .ut k) = true
+    · simp only [h1, if_true]
+      obtain ⟨kd, hk⟩ := hkind
+      simp only [hk]
+      exact ⟨_, rfl⟩
+    · simp only [h1, if_false]
+      exact ⟨_, rfl⟩
+  · simp only [h0, if_false]
+    by_cases h1 : isStringKind (under env k) = true
+    · simp only [h1, if_true]; exact ⟨_, rfl⟩
+    · by_cases h2 : isIntKind (under env k) = true
+      · simp only [h1, h2, if_true, if_false]
+        obtain ⟨c, hk⟩ := stringCodec_ok env f k s h2
+        simp only [hk]
+        exact ⟨_, rfl⟩
+      · simp only [h1, h2, if_false]; exact ⟨_, rfl⟩
+
+theorem stringify_ok (codec : CodecFn) (f : Nat) (hc : CodecOK env t0 codec f) (a : Bool) (ft : TD) (c : Choice)
+    (s : Seen) (hin : InU env t0 ft) (h : NFc (UU env t0) (MM env t0) s ft.size + 1 ≤ f) :
+    ∃ c' s', stringifyF codec env a ft c s = some (c', s') ∧ Evo s s' := by
+  unfold stringifyF
+  extract_lets typ q q'
+  by_cases h0 : (typ != ft) = true
+  · simp only [h0, if_true]
+    obtain ⟨p, s', h1, h2⟩ := hc ft a s hin h
+    simp only [h1]
+    exact ⟨_, _, rfl, h2⟩
+  · simp only [h0, if_false]
+    exact ⟨_, _, rfl, Evo.refl s⟩
+
+theorem fl_size_field (n : String) (e st : Bool) (t : TD) (r : FL) :
+    (FL.cons n e st t r).size = t.size + r.size + 1 := by simp [FL.size]
+
+theorem embedded_ok (strct : StructFn) (list : ListFn) (f : Nat) (hs : StructOK env t0 strct f)
+    (hl : ListOK env t0 list f) (typ : TD) (b : Bool) (R : Key) (s : Seen) (hin : InU env t0 typ)
+    (h : NF (UU env t0) (MM env t0) s R typ.size + 1 ≤ f) :
+    ∃ fs s', embeddedF strct list typ b R s = some (fs, s') ∧ Evo s s' := by
+  unfold embeddedF
+  have hc := NFc_le_NF (UU env t0) (MM env t0) s R typ.size
+  obtain ⟨e, s1, h1, m1, hb⟩ := hs typ b (some R) s hin (by omega)
+  simp only [h1]
+  cases e with
+  | done fs => exact ⟨_, _, rfl, m1⟩
+  | building r =>
+    obtain ⟨rfl, hfind⟩ := hb r rfl
+    by_cases hr : (r == R) = true
+    · simp only [hr, if_true]; exact ⟨_, _, rfl, Evo.refl _⟩
+    · have hr' : (r == R) = false := by simpa using hr
+      simp only [hr', Bool.false_eq_true, if_false]
+      have hsz := (fieldsOf_in env t0 typ hin).2
+      have hmark := NF_mark (UU env t0) (MM env t0) s1 (typ, b) r R (key_mem _ typ b hin) hfind hr'
+        (fieldsOf env typ).size (by omega)
+      have hle : NF (UU env t0) (MM env t0) s1 R 1 ≤ NF (UU env t0) (MM env t0) s1 R typ.size := by
+        unfold NF; have := size_pos typ; omega
+      obtain ⟨fs, s2, h2, m2⟩ := hl typ b R (s1.set (typ, b) (.building R)) hin (by omega)
+      simp only [h2]
+      exact ⟨_, _, rfl, evo_relist s1 s2 (typ, b) r R hfind m2⟩
+
+theorem fields_ok (codec : CodecFn) (strct : StructFn) (list : ListFn) (f : Nat) (hc : CodecOK env t0 codec f)
+    (hs : StructOK env t0 strct f) (hl : ListOK env t0 list f) (a : Bool) (R : Key) :
+    ∀ (fs : FL) (s : Seen), FLin env t0 fs → NF (UU env t0) (MM env t0) s R fs.size + 1 ≤ f →
+      ∃ cl s', fieldsF codec strct list env a R fs s = some (cl, s') ∧ Evo s s'
+  | .nil, s, _, _ => ⟨.nil, s, by simp [fieldsF], Evo.refl s⟩
+  | .cons name emb str ft rest, s, hin, h => by
+    rw [fl_size_field] at h
+    have hft : InU env t0 ft := hin ft (by simp [subsF, subs_self])
+    have hrestin : FLin env t0 rest := fun x hx => hin x (by simp [subsF, hx])
+    unfold fieldsF
+    extract_lets isP typ
+    have htyp : typ.size ≤ ft.size := peel_size ft
+    have htypin : InU env t0 typ := univ_closed env t0 ft _ hft (peel_subs ft)
+    have hrest : ∀ s', Evo s s' → NF (UU env t0) (MM env t0) s' R rest.size + 1 ≤ f := fun s' hm => by
+      have := NF_evo (UU env t0) (MM env t0) hm R (show rest.size ≤ ft.size + rest.size + 1 by omega); omega
+    by_cases h0 : (emb && isStructKind (under env typ)) = true
+    · simp only [h0, if_true]
+      obtain ⟨sub, s1, h1, m1⟩ := embedded_ok env t0 strct list f hs hl typ (a || isP) R s htypin (by
+        have := NF_evo (UU env t0) (MM env t0) (Evo.refl s) R (show typ.size ≤ ft.size + rest.size + 1 by omega); omega)
+      simp only [h1]
+      obtain ⟨r, s2, h2, m2⟩ := fields_ok codec strct list f hc hs hl a R rest s1 hrestin (hrest s1 m1)
+      simp only [h2]
+      exact ⟨_, _, rfl, m1.trans m2⟩
+    · simp only [h0, if_false]
+      have hcb : ∀ s', Evo s s' → NFc (UU env t0) (MM env t0) s' ft.size + 1 ≤ f := fun s' hm => by
+        have h1 := NFc_le_NF (UU env t0) (MM env t0) s' R ft.size
+        have := NF_evo (UU env t0) (MM env t0) hm R (show ft.size ≤ ft.size + rest.size + 1 by omega); omega
+      obtain ⟨c, s1, h1, m1⟩ := hc ft a s hft (hcb s (Evo.refl s))
+      simp only [h1]
+      have hstr : ∃ c' s2, (if str = true then stringifyF codec env a ft c s1 else some (c, s1)) = some (c', s2) ∧ Evo s1 s2 := by
+        by_cases hst : str = true
+        · simp only [hst, if_true]
+          exact stringify_ok env t0 codec f hc a ft c s1 hft (hcb s1 m1)
+        · simp only [hst, if_false]; exact ⟨_, _, rfl, Evo.refl s1⟩
+      obtain ⟨c', s2, h2, m2⟩ := hstr
+      simp only [h2]
+      obtain ⟨r, s3, h3, m3⟩ := fields_ok codec strct list f hc hs hl a R rest s2 hrestin (hrest s2 (m1.trans m2))
+      simp only [h3]
+      exact ⟨_, _, rfl, (m1.trans m2).trans m3⟩
+
+theorem kind_ok (f : Nat) (hc : CodecOK env t0 (codecF f env) f)
+    (hs : StructOK env t0 (structF f env) f) (t u : TD) (a : Bool) (s : Seen)
+    (hchild : isComposite u = true → ∀ e : TD, e ∈ subs u → e.size < u.size →
+      InU env t0 e ∧ NFc (UU env t0) (MM env t0) s e.size + 1 ≤ f)
+    (hstruct : isStructKind u = true → InU env t0 t ∧ NFc (UU env t0) (MM env t0) s t.size ≤ f) :
+    ∃ c s', kindF (codecF f env) (structF f env) env t u a s = some (c, s') ∧ Evo s s' := by
+  unfold kindF
+  split
+  · exact ⟨_, _, rfl, Evo.refl s⟩
+  · exact ⟨_, _, rfl, Evo.refl s⟩
+  · exact ⟨_, _, rfl, Evo.refl s⟩
+  · exact ⟨_, _, rfl, Evo.refl s⟩
+  · exact ⟨_, _, rfl, Evo.refl s⟩
+  · -- array
+    rename_i n e
+    obtain ⟨hin, hb⟩ := hchild rfl e (by simp [subs, subs_self]) (by simp [TD.size])
+    obtain ⟨c, s1, h1, m1⟩ := hc e a s hin hb
+    simp only [h1]; exact ⟨_, _, rfl, m1⟩
+  · -- slice
+    rename_i e
+    split
+    · exact ⟨_, _, rfl, Evo.refl s⟩
+    · obtain ⟨hin, hb⟩ := hchild rfl e (by simp [subs, subs_self]) (by simp [TD.size])
+      obtain ⟨c, s1, h1, m1⟩ := hc e true s hin hb
+      simp only [h1]; exact ⟨_, _, rfl, m1⟩
+  · -- map
+    rename_i k v
+    split
+    · exact ⟨_, _, rfl, Evo.refl s⟩
+    · obtain ⟨hin, hb⟩ := hchild rfl v (by simp [subs, subs_self]) (by simp [TD.size]; omega)
+      obtain ⟨vc, s1, h1, m1⟩ := hc v false s hin hb
+      simp only [h1]
+      obtain ⟨f', rfl⟩ : ∃ f', f = f' + 1 := ⟨f - 1, by omega⟩
+      obtain ⟨r, h2⟩ := mapKey_ok env f' k s1
+      simp only [h2]
+      cases r with
+      | none => exact ⟨_, _, rfl, m1⟩
+      | some kc => exact ⟨_, _, rfl, m1⟩
+  · -- struct
+    obtain ⟨hin, hb⟩ := hstruct (by simp [isStructKind])
+    obtain ⟨e, s1, h1, m1, _⟩ := hs t a none s hin hb
+    simp only [h1]; exact ⟨_, _, rfl, m1⟩
+  · -- ptr
+    rename_i e
+    obtain ⟨hin, hb⟩ := hchild rfl e (by simp [subs, subs_self]) (by simp [TD.size])
+    obtain ⟨c, s1, h1, m1⟩ := hc e true s hin hb
+    simp only [h1]; exact ⟨_, _, rfl, m1⟩
+  · exact ⟨_, _, rfl, Evo.refl s⟩
+
+theorem main : ∀ f, CodecOK env t0 (codecF f env) f ∧ StructOK env t0 (structF f env) f ∧ ListOK env t0 (listF f env) f
+  | 0 => ⟨fun t a s _ h => by omega, fun t a root s _ h => by have := NFc_pos (UU env t0) (MM env t0) s t; omega,
+      fun t a R s _ h => by omega⟩
   | f + 1 => by
-    obtain ⟨ihc, ihs⟩ := main env f
-    constructor
-    · intro t a s h
+    obtain ⟨ihc, ihs, ihl⟩ := main f
+    refine ⟨?_, ?_, ?_⟩
+    · intro t a s hin h
       rw [codecF]
       cases hfs : firstSwitch t with
-      | some c0 => exact ⟨_, _, rfl, Mono.refl s⟩
+      | some c0 => exact ⟨_, _, rfl, Evo.refl s⟩
       | none =>
         simp only
-        generalize ht' : t = t' at *
-        generalize hnamed : (isRef t' && isComposite (under env t')) = named at *
-        by_cases hrec : (named && (s.find (t', false)).isSome) = true
-        · simp only [hrec, if_true]; exact ⟨_, _, rfl, Mono.refl s⟩
+        generalize hnamed : (isRef t && isComposite (under env t)) = named
+        by_cases hrec : (named && (s.find (t, false)).isSome) = true
+        · simp only [hrec, if_true]; exact ⟨_, _, rfl, Evo.refl s⟩
         · simp only [hrec, if_false]
-          have hk : ∃ c s', kindF (codecF f env) (structF f env) env t' (under env t') a
-              (if named = true then s.set (t', false) .building else s) = some (c, s') ∧
-              Mono (if named = true then s.set (t', false) .building else s) s' := by
-            apply kind_ok env _ _ f ihc ihs
-            · intro hcomp e he
+          have hk : ∃ c s', kindF (codecF f env) (structF f env) env t (under env t) a
+              (if named = true then s.set (t, false) (.building (t, false)) else s) = some (c, s') ∧
+              Evo (if named = true then s.set (t, false) (.building (t, false)) else s) s' := by
+            apply kind_ok env t0 f ihc ihs
+            · intro hcomp e he hlt
+              have hu : under env t ∈ univ env t0 := by
+                rcases under_univ env t0 t hin with h1 | h1
+                · exact h1
+                · rw [h1] at hcomp; simp [isComposite] at hcomp
+              have hein : InU env t0 e := univ_closed env t0 _ e hu he
+              refine ⟨hein, ?_⟩
               by_cases hn : named = true
-              · -- a named composite: the key is new, the body fits
-                simp only [hn, if_true]
-                have habs : s.find (t', false) = none := by
-                  cases hf : s.find (t', false) with
+              · simp only [hn, if_true]
+                have habs : s.find (t, false) = none := by
+                  cases hf : s.find (t, false) with
                   | none => rfl
                   | some _ => simp [hn, hf] at hrec
-                have hr : isRef t' = true := by
-                  have : (isRef t' && isComposite (under env t')) = true := by rw [hnamed]; exact hn
-                  simp at this; exact this.1
-                obtain ⟨id, rfl⟩ : ∃ id, t' = .ref id := by
-                  cases t' <;> simp [isRef] at hr; exact ⟨_, rfl⟩
-                obtain ⟨d, hd, hsz⟩ := under_ref env id (by
-                  intro hc; rw [hc] at hcomp; simp [isComposite] at hcomp)
-                have := NF_set env s (.ref id, false) .building (mem_allKeys env id d false hd) habs e.size (by omega)
-                have h1 : (TD.ref id).size = 1 := by simp [TD.size]
-                rw [h1] at h
+                have h1 := NF_newkey (UU env t0) (MM env t0) s (t, false) (.building (t, false)) (key_mem _ t false hin)
+                  habs (t, false) e.size (size_le_maxSize _ _ hein)
+                have h2 := NFc_le_NF (UU env t0) (MM env t0) (s.set (t, false) (.building (t, false))) (t, false) e.size
+                have h3 : NFc (UU env t0) (MM env t0) s 1 ≤ NFc (UU env t0) (MM env t0) s t.size := by
+                  unfold NFc; have := size_pos t; omega
                 omega
               · have hn' : named = false := by simpa using hn
                 simp only [hn', Bool.false_eq_true, if_false]
-                have hnr : isRef t' = false := by
-                  have : (isRef t' && isComposite (under env t')) = false := by rw [hnamed]; exact hn'
+                have hnr : isRef t = false := by
+                  have : (isRef t && isComposite (under env t)) = false := by rw [hnamed]; exact hn'
                   simpa [hcomp] using this
-                have hu : under env t' = t' := by
-                  rcases under_cases env t' with h1 | ⟨id, rfl⟩
+                have hut : under env t = t := by
+                  rcases under_cases env t with h1 | ⟨id, rfl⟩
                   · exact h1
                   · simp [isRef] at hnr
-                rw [hu] at he
-                have := NF_mono env (Mono.refl s) (show e.size ≤ t'.size - 1 by omega)
-                have h2 : NF env s (t'.size - 1) + 2 ≤ NF env s t'.size := by
-                  unfold NF; have := size_pos e; omega
+                rw [hut] at hlt
+                have h2 : NFc (UU env t0) (MM env t0) s e.size + 2 ≤ NFc (UU env t0) (MM env t0) s t.size := by
+                  unfold NFc; omega
                 omega
             · intro hst
               have hn : named = false := by
                 rw [← hnamed]
-                cases hu : under env t' <;> simp [hu, isStructKind, isComposite] at hst ⊢
+                cases hu : under env t <;> simp [hu, isStructKind, isComposite] at hst ⊢
               simp only [hn]
               simp
-              omega
+              exact ⟨hin, by omega⟩
           obtain ⟨c, s', h1, m1⟩ := hk
           simp only [h1]
           refine ⟨_, _, rfl, ?_⟩
           by_cases hn : named = true
           · simp only [hn, if_true] at m1 ⊢
-            have habs : s.find (t', false) = none := by
-              cases hf : s.find (t', false) with
+            have habs : s.find (t, false) = none := by
+              cases hf : s.find (t, false) with
               | none => rfl
               | some _ => simp [hn, hf] at hrec
-            exact mono_erase_of_absent s s' (t', false) .building habs m1
+            exact evo_named s s' (t, false) (t, false) habs m1
           · simp only [hn, if_false] at m1 ⊢
             exact m1
-    · intro t a s h
+    · intro t a root s hin h
       rw [structF]
       cases hf : s.find (t, a) with
-      | some e => exact ⟨_, _, rfl, Mono.refl s⟩
+      | some e => exact ⟨_, _, rfl, Evo.refl s, fun r he => ⟨rfl, by rw [he]⟩⟩
       | none =>
         simp only
-        have hfit : NF env (s.set (t, a) .building) (fieldsOf env t).size + 1 ≤ f := by
-          have hm := mono_set s (t, a) .building
-          unfold fieldsOf
-          split
-          · rename_i fs hu
-            rcases under_cases env t with h1 | ⟨id, rfl⟩
-            · rw [h1] at hu; subst hu
-              have := NF_mono env hm (Nat.le_refl fs.size)
-              have h2 : NF env s fs.size + 2 = NF env s (TD.struct fs).size := by unfold NF; simp [TD.size]; omega
-              omega
-            · obtain ⟨d, hd, hsz⟩ := under_ref env id (by rw [hu]; simp)
-              rw [hu] at hsz
-              have := NF_set env s (.ref id, a) .building (mem_allKeys env id d a hd) hf fs.size (by
-                simp [TD.size] at hsz; omega)
-              have h1 : (TD.ref id).size = 1 := by simp [TD.size]
-              rw [h1] at h
-              omega
-          · have := NF_mono env hm (Nat.le_refl 0)
-            have h2 : NF env s 0 + 2 ≤ NF env s t.size := by unfold NF; have := size_pos t; omega
-            simp only [FL.size]
-            omega
-        obtain ⟨fs, s2, h2, m2⟩ := fields_ok env _ _ f ihc ihs a (fieldsOf env t) _ hfit
+        obtain ⟨hfin, hsz⟩ := fieldsOf_in env t0 t hin
+        have h1 := NF_newkey (UU env t0) (MM env t0) s (t, a) (.building (root.getD (t, a))) (key_mem _ t a hin) hf
+          (root.getD (t, a)) (fieldsOf env t).size (by omega)
+        have h3 : NFc (UU env t0) (MM env t0) s 1 ≤ NFc (UU env t0) (MM env t0) s t.size := by
+          unfold NFc; have := size_pos t; omega
+        obtain ⟨fs, s2, h2, m2⟩ := fields_ok env t0 _ _ _ f ihc ihs ihl a (root.getD (t, a)) (fieldsOf env t)
+          (s.set (t, a) (.building (root.getD (t, a)))) hfin
+          (by omega)
         simp only [h2]
-        exact ⟨_, _, rfl, ((mono_set s (t, a) .building).trans m2).trans (mono_set s2 (t, a) (.done fs))⟩
+        exact ⟨_, _, rfl, evo_struct s s2 (t, a) _ fs hf m2, fun r he => by cases he⟩
+    · intro t a R s hin h
+      rw [listF]
+      exact fields_ok env t0 _ _ _ f ihc ihs ihl a R (fieldsOf env t) s (fieldsOf_in env t0 t hin).1 (by omega)
+
+end main
 
 /-- **choose_terminates.** For every environment (recursive definitions included), every type and addressability, the
 construction started with an empty `seen` returns a codec: the fuel of `choose` is never exhausted. -/
 theorem choose_terminates (env : Env) (t : TD) (a : Bool) :
     ∃ c s, codecF (fuelFor env t) env t a [] = some (c, s) := by
-  obtain ⟨c, s, h, _⟩ := (main env (fuelFor env t)).1 t a [] (by unfold fuelFor fuelNeeded NF; omega)
+  have hin : InU env t t := by simp [InU, univ, subs_self]
+  obtain ⟨c, s, h, _⟩ := (main env t (fuelFor env t)).1 t a [] hin (by
+    simp only [fuelFor, NFc, UU, MM]
+    have h1 := absent_le (keysOf (univ env t)) []
+    have h2 := Nat.mul_le_mul_right ((keysOf (univ env t)).length + 1) h1
+    have h3 := Nat.mul_le_mul_right (maxSize (univ env t) + 2) h2
+    omega)
   exact ⟨c, s, h⟩
 
 theorem choose_eq (env : Env) (t : TD) (a : Bool) :
